@@ -1162,11 +1162,20 @@ def gen_C13(rng):
             ctx.emit("apply %s %s %s %s %s" % (n, f.name, rng.choice(SETOPS) if f.range == "bool"
                                                 else rng.choice(["plus", "max", "min"]), a, b))
             ctx.edges[n] = f
-    for rnd in range(rng.randint(1, 3)):
+    used = []
+    for rnd in range(rng.randint(1, 4)):
         f = rng.choice(fs)
-        perm = list(range(1, k + 1))
-        rng.shuffle(perm)
+        # orders are shared between forests that reach the same permutation:
+        # re-use an earlier permutation half of the time
+        if used and rng.random() < 0.5:
+            perm = list(rng.choice(used))
+        else:
+            perm = list(range(1, k + 1))
+            rng.shuffle(perm)
+        used.append(perm)
         ctx.emit("reorder %s %s" % (f.name, " ".join(map(str, perm))))
+        for g in fs:
+            ctx.emit("order %s" % g.name)
         for e in ctx.edges:
             ctx.emit("show %s" % e)
         ctx.emit("audit %s" % f.name)
@@ -1178,6 +1187,67 @@ def gen_C13(rng):
             ctx.emit("apply %s %s %s %s %s" % (n, f.name, rng.choice(SETOPS) if f.range == "bool"
                                                 else rng.choice(["plus", "max", "min"]), a, b))
             ctx.edges[n] = f
+    return ctx.text()
+
+
+def gen_C13_shared(rng):
+    """several forests over one domain are brought to the same variable order
+    (forests in the same order share the domain's order object), then one of
+    them moves on: the others must keep their order and their functions"""
+    ctx = Ctx(rng)
+    rel = rng.random() < 0.3
+    ctx.emit("init " + rand_ctopts(rng))
+    d = rand_domain(rng, "D", rel, 200, 4)
+    ctx.emit(d.decl())
+    ctx.doms.append(d)
+    rules = ["fr", "qr"] if not rel else RULES_REL
+    k = len(d.sizes)
+    fs = []
+    for i in range(rng.choice([2, 2, 3])):
+        rg = rng.choice(["bool", "int"])
+        # relation forests: level swap only (variable swap is a recorded finding)
+        opts = rand_opts(rng) + " reorder=" + rng.choice(REORDERS) + " swap=" + ("level" if rel else rng.choice(["var", "level"]))
+        f = Forest("F%d" % i, d, rel, rg, "mt", rng.choice(rules), opts)
+        ctx.emit(f.decl())
+        ctx.forests.append(f)
+        fs.append(f)
+    for f in fs:
+        for _ in range(rng.randint(1, 2)):
+            gen_leaf(ctx, f)
+
+    def perm():
+        p = list(range(1, k + 1))
+        rng.shuffle(p)
+        return p
+
+    def observe():
+        for g in fs:
+            ctx.emit("order %s" % g.name)
+        for e in ctx.edges:
+            ctx.emit("show %s" % e)
+
+    P = perm()
+    movers = list(fs)
+    rng.shuffle(movers)
+    for f in movers[: rng.choice([2, len(fs)])]:
+        ctx.emit("reorder %s %s" % (f.name, " ".join(map(str, P))))
+    observe()
+    for rnd in range(rng.randint(1, 3)):
+        f = rng.choice(fs)
+        Q = perm() if rng.random() < 0.7 else P
+        ctx.emit("reorder %s %s" % (f.name, " ".join(map(str, Q))))
+        observe()
+        for g in fs:
+            ctx.emit("audit %s" % g.name)
+            # every forest stays usable
+            names = [e for e in ctx.edges if ctx.edges[e] is g]
+            if len(names) >= 1 and rng.random() < 0.5:
+                a, b = rng.choice(names), rng.choice(names)
+                n = ctx.fresh()
+                ctx.emit("apply %s %s %s %s %s" % (n, g.name, rng.choice(SETOPS) if g.range == "bool"
+                                                    else rng.choice(["plus", "max", "min"]), a, b))
+                ctx.edges[n] = g
+                ctx.emit("show %s" % n)
     return ctx.text()
 
 
